@@ -32,6 +32,10 @@ from vlib import env, harness, gen_systems, oracles  # noqa: E402
 import numpy as np  # noqa: E402
 
 PROP = "C15"
+# classes that fire on the unchanged tree and wait for the coordinator's decision (see the final report of the widening review):
+#   WannierData.select_bands(selected_bands=<boolean mask>) raises AssertionError for every mask that drops a band
+#   (witnesses/review_c15_finding_1.py) - a side finding in a history step, not the window selection itself
+PENDING = os.environ.get("VERIF_C15_PENDING", "0") == "1"
 
 
 # ----------------------------------------------------------------------------------------------
@@ -116,11 +120,15 @@ def window_expected(E, thresh, win_min, win_max, include_degen, closed_lo=True, 
 #  generators of sorted band arrays
 # ----------------------------------------------------------------------------------------------
 
-def gen_array(rng):
-    """sorted energies made of multiplets (sizes 1-6) and the threshold that defines them"""
+def gen_array(rng, big=False):
+    """sorted energies made of multiplets (sizes 1-6) and the threshold that defines them;
+    big: 25-60 multiplets of 1-8 bands (about 50-300 bands, the size of a real ab-initio band set)"""
     mode = ["float", "float", "float", "integer", "zero_thresh", "default"][int(rng.integers(6))]
     nm = int(rng.integers(1, 6))
     sizes = [int(rng.integers(1, 7)) if rng.random() < 0.6 else 1 for _ in range(nm)]
+    if big:
+        nm = int(rng.integers(25, 61))
+        sizes = [int(rng.integers(1, 9)) if rng.random() < 0.6 else 1 for _ in range(nm)]
     if mode == "integer":
         # exact arithmetic: integer energies, integer threshold; gap == thresh ties on purpose
         thresh = float(rng.integers(0, 4))
@@ -147,6 +155,57 @@ def gen_array(rng):
         if im < nm - 1:
             E.append(E[-1] + unit * [1.1, 2.0, 10.0, 1e3][int(rng.integers(4))] + (0.0 if thresh > 0 else 0.0))
     return np.array(E), thresh, mode
+
+
+def storage_variant(rng, E, mode):
+    """the same numbers held differently: a strided view, a read-only array, and (integer-valued arrays only, where every
+    difference is exact in any of the types) int64 / float32 storage.  Returns (array, tag)"""
+    forms = ["plain", "plain", "strided", "readonly"]
+    if mode == "integer":
+        forms += ["int64", "float32"]
+    form = forms[int(rng.integers(len(forms)))]
+    if form == "strided":
+        buf = np.full(2 * len(E), np.nan)
+        buf[::2] = E
+        return buf[::2], form
+    if form == "readonly":
+        Ev = E.copy()
+        Ev.setflags(write=False)
+        return Ev, form
+    if form == "int64":
+        return E.astype(np.int64), form
+    if form == "float32":
+        return E.astype(np.float32), form
+    return E.copy(), form
+
+
+def scalar_variant(rng, x):
+    """a python float given as numpy scalar (what comes out of array arithmetic in user code) or, if integral, as python int"""
+    r = rng.random()
+    if r < 0.25:
+        return np.float64(x)
+    if r < 0.35 and np.isfinite(x) and float(x) == int(x):
+        return int(x)
+    return x
+
+
+def selection_variant(rng, n):
+    """select_bands in the forms users pass: sorted / unordered ndarray, list, tuple, a single band, the empty selection"""
+    r = rng.random()
+    if r < 0.08:
+        idx, form = np.zeros(0, dtype=int), "empty"
+    elif r < 0.2:
+        idx, form = np.array([int(rng.integers(n))]), "single"
+    else:
+        idx, form = rng.choice(n, size=int(rng.integers(1, n + 1)), replace=False), "several"
+    q = int(rng.integers(4))
+    if q == 0:
+        return np.sort(idx), idx, form + ":sorted_array"
+    if q == 1:
+        return idx, idx, form + ":unordered_array"
+    if q == 2:
+        return [int(i) for i in idx], idx, form + ":list"
+    return tuple(int(i) for i in idx), idx, form + ":tuple"
 
 
 def gen_window(rng, E, thresh):
@@ -177,11 +236,23 @@ def gen_window(rng, E, thresh):
 #  kind 1 : arrays
 # ----------------------------------------------------------------------------------------------
 
-def arrays_one(ctx, rng, state):
+def arrays_one(ctx, rng, state, big=False):
     T, U = state["T"], state["U"]
-    E, thresh, mode = gen_array(rng)
+    E, thresh, mode = gen_array(rng, big=big)
     n = len(E)
-    wit = dict(E=E, thresh=thresh, mode=mode)
+    # the array handed to the library: the same numbers as a strided view / read-only / int64 / float32 array
+    Ev, form = storage_variant(rng, E, mode)
+    ctx.count("storage_" + form)
+    if big:
+        ctx.count("arrays_big")
+        if n >= 100:
+            ctx.count("arrays_with_100_bands_or_more")
+    wit = dict(E=E, thresh=thresh, mode=mode, storage=form)
+
+    def edges(a, b):
+        if form == "float32":          # a python float is compared in float32 with such an array: give representable edges
+            return float(np.float32(a)), float(np.float32(b))
+        return a, b
     # exact ties gap == thresh are pinned by the property ("at most" -> internal) for the band groups;
     # gaps that differ from the threshold by rounding only are not judged
     tie = has_thresh_tie(E, thresh, "near")
@@ -195,7 +266,11 @@ def arrays_one(ctx, rng, state):
         for kr in (False, True):
             if kr and n % 2:
                 continue
-            got = T.get_borders(E, thresh, degen_Kramers=kr)
+            th = scalar_variant(rng, thresh)
+            if rng.random() < 0.3:
+                got = T.get_borders(Ev, th, kr) if kr or rng.random() < 0.5 else T.get_borders(Ev, th)     # positional
+            else:
+                got = T.get_borders(Ev, th, degen_Kramers=kr)
             got_t = [(int(a), int(b)) for a, b in got]
             check_block_invariants(ctx, "get_borders", E, got_t, thresh, kr, dict(wit, Kramers=kr, got=got_t))
             ctx.ev()
@@ -203,14 +278,21 @@ def arrays_one(ctx, rng, state):
             if got_t != exp:
                 ctx.violation("get_borders!=components", f"got {got_t} expected {exp}", dict(wit, Kramers=kr))
             ctx.count("get_borders_Kramers" if kr else "get_borders")
-        got = T.get_borders(E, -1)
+        got = T.get_borders(Ev, -1)
         ctx.ev()
         if [tuple(x) for x in got] != [(i, i + 1) for i in range(n)]:
             ctx.violation("get_borders[thresh<0]!=single_bands", f"got {got}", wit)
+        if n % 2 == 0:
+            # every band its own multiplet + Kramers degeneracy requested: the Kramers pairs
+            got = T.get_borders(Ev, -1, degen_Kramers=True)
+            ctx.ev()
+            ctx.count("get_borders_Kramers_negative_thresh")
+            if [tuple(int(i) for i in x) for x in got] != [(i, i + 2) for i in range(0, n, 2)]:
+                ctx.violation("get_borders[thresh<0,Kramers]!=pairs", f"got {got}", wit)
 
         # ---------------- find_degen --------------------------------------------------------
         if not has_thresh_tie(E, thresh, "exact"):
-            got = [(int(a), int(b)) for a, b in U.find_degen(E, thresh)]
+            got = [(int(a), int(b)) for a, b in U.find_degen(Ev, scalar_variant(rng, thresh))]
             ctx.ev()
             ctx.count("find_degen")
             if got != comps:
@@ -218,32 +300,54 @@ def arrays_one(ctx, rng, state):
 
         # ---------------- get_bands_in_range ------------------------------------------------
         for _ in range(2):
-            emin, emax = gen_window(rng, E, thresh)
+            emin, emax = edges(*gen_window(rng, E, thresh))
             kr = bool(n % 2 == 0 and rng.random() < 0.3)
-            use_minmax = rng.random() < 0.4
-            if use_minmax:
-                w = np.abs(rng.normal(size=n)) * max(thresh, 1e-3) * 3
-                Emin, Emax = E - w, E + np.abs(rng.normal(size=n)) * max(thresh, 1e-3) * 3
-            else:
-                Emin, Emax = E, E
-            sel = None
-            if rng.random() < 0.3:
-                sel = np.sort(rng.choice(n, size=int(rng.integers(1, n + 1)), replace=False))
+            # spans of the bands over a k-cell (what the tetrahedron method passes): both, only one of them, or none
+            span = ["none", "none", "none", "both", "both", "min", "max"][int(rng.integers(7))]
+            if form in ("int64", "float32"):
+                span = "none"
+            Emin = E - np.abs(rng.normal(size=n)) * max(thresh, 1e-3) * 3 if span in ("both", "min") else E
+            Emax = E + np.abs(rng.normal(size=n)) * max(thresh, 1e-3) * 3 if span in ("both", "max") else E
+            sel, sel_idx, sel_form = None, None, None
+            if rng.random() < 0.4:
+                sel, sel_idx, sel_form = selection_variant(rng, n)
+            # documented defaults: degen_thresh=-1 (every band its own group), degen_Kramers=False
+            use_default_thresh = bool(rng.random() < 0.12)
+            th_eff = -1 if use_default_thresh else thresh
             edge_tie = bool(np.any(Emax == emin) or np.any(Emin == emax))
-            got = T.get_bands_in_range(emin, emax, E, degen_thresh=thresh, degen_Kramers=kr,
-                                       Ebandmin=Emin if use_minmax else None, Ebandmax=Emax if use_minmax else None,
-                                       select_bands=sel)
+            kw = dict(select_bands=sel)
+            if not use_default_thresh:
+                kw["degen_thresh"] = scalar_variant(rng, thresh)
+            if kr or rng.random() < 0.5:
+                kw["degen_Kramers"] = kr
+            if span in ("both", "min"):
+                kw["Ebandmin"] = Emin
+            elif rng.random() < 0.5:
+                kw["Ebandmin"] = None
+            if span in ("both", "max"):
+                kw["Ebandmax"] = Emax
+            if sel is None and rng.random() < 0.5:
+                kw.pop("select_bands")
+            got = T.get_bands_in_range(scalar_variant(rng, emin), scalar_variant(rng, emax), Ev, **kw)
             got_t = [(int(a), int(b)) for a, b in got]
-            blocks = blocks_oracle(E, thresh, kr)
-            w2 = dict(wit, emin=emin, emax=emax, Kramers=kr, select_bands=sel, got=got_t,
-                      Ebandmin=Emin if use_minmax else None, Ebandmax=Emax if use_minmax else None)
+            blocks = blocks_oracle(E, th_eff, kr)
+            w2 = dict(wit, emin=emin, emax=emax, Kramers=kr, select_bands=sel, got=got_t, degen_thresh=th_eff,
+                      Ebandmin=Emin if span in ("both", "min") else None, Ebandmax=Emax if span in ("both", "max") else None)
             ctx.ev()
             ctx.count("get_bands_in_range")
+            if use_default_thresh:
+                ctx.count("get_bands_in_range_default_thresh")
+            if span in ("min", "max"):
+                ctx.count("get_bands_in_range_one_span_only")
+            if sel_form is not None:
+                ctx.count("get_bands_in_range_select_" + sel_form.split(":")[1])
+                if sel_form.startswith("empty"):
+                    ctx.count("get_bands_in_range_select_empty")
             if not set(got_t) <= set(blocks) or got_t != sorted(got_t):
                 ctx.violation("get_bands_in_range:not_whole_blocks", f"got {got_t}, blocks {blocks}", w2)
                 continue
             for a, b in blocks:
-                if sel is not None and not (set(range(a, b)) & set(int(i) for i in sel)):
+                if sel is not None and not (set(range(a, b)) & set(int(i) for i in sel_idx)):
                     expect = False
                 else:
                     strictly = Emax[a:b].max() > emin and Emin[a:b].min() < emax
@@ -264,12 +368,20 @@ def arrays_one(ctx, rng, state):
     else:
         comps_s = oracles.components(E, thresh, strict=True)
         for _ in range(3):
-            wmin, wmax = gen_window(rng, E, thresh)
+            wmin, wmax = edges(*gen_window(rng, E, thresh))
             for inc in (False, True):
-                kw = dict(thresh=thresh, win_min=wmin, win_max=wmax, include_degen=inc)
+                kw = dict(thresh=scalar_variant(rng, thresh), win_min=scalar_variant(rng, wmin), win_max=scalar_variant(rng, wmax),
+                          include_degen=inc if rng.random() < 0.8 else (np.bool_(inc) if rng.random() < 0.5 else int(inc)))
                 if mode == "default" and rng.random() < 0.5:
                     kw.pop("thresh")                     # the default threshold 1e-2
-                got = U.select_window_degen(E.copy(), **kw)
+                if "thresh" in kw and rng.random() < 0.15:
+                    # positional call in the documented order (E, thresh, win_min, win_max, include_degen, return_indices)
+                    args = (kw["thresh"], kw["win_min"], kw["win_max"], kw["include_degen"])
+                    kw = {}
+                    ctx.count("select_window_degen_positional")
+                else:
+                    args = ()
+                got = U.select_window_degen(Ev, *args, **kw)
                 got = np.asarray(got)
                 w2 = dict(wit, win_min=wmin, win_max=wmax, include_degen=inc, got=got)
                 ctx.ev()
@@ -292,19 +404,170 @@ def arrays_one(ctx, rng, state):
                     ctx.violation("select_window_degen!=whole_components_of_window",
                                   f"got {got.astype(int)} expected {exps[0].astype(int)}", w2)
                     continue
-                idx = U.select_window_degen(E.copy(), return_indices=True, **kw)
+                if args:
+                    idx = U.select_window_degen(Ev, *args, True)
+                else:
+                    idx = U.select_window_degen(Ev, return_indices=True, **kw)
                 ctx.ev()
                 if [int(i) for i in idx] != [int(i) for i in np.where(got)[0]]:
                     ctx.violation("select_window_degen:return_indices!=mask", f"indices {idx} mask {got.astype(int)}", w2)
+                # asking again gives the same answer (the first answer is not touched by the second request either)
+                again = np.asarray(U.select_window_degen(Ev, *args, **kw))
+                ctx.ev()
+                if not np.array_equal(again, got):
+                    ctx.violation("select_window_degen:second_request_differs", f"{got.astype(int)} then {again.astype(int)}", w2)
                 cutting = [c for c in comps_s if c[1] - c[0] > 1 and
                            0 < ((E[c[0]:c[1]] >= wmin) & (E[c[0]:c[1]] <= wmax)).sum() < c[1] - c[0]]
                 if cutting:
                     ctx.count("window_cuts_multiplet")
-                    ctx.nontrivial(("window", n, tuple(sizes), mode, inc, max(c[1] - c[0] for c in cutting),
-                                    cutting[0][0] == 0, cutting[-1][1] == n))
+                    if big:
+                        ctx.count("window_cuts_multiplet_big_array")
+                    ctx.nontrivial(("window", n if not big else n // 50, tuple(sizes) if not big else max(sizes), mode, inc,
+                                    max(c[1] - c[0] for c in cutting), cutting[0][0] == 0, cutting[-1][1] == n))
+    # none of the functions may change the caller's array
+    ctx.ev()
+    if not np.array_equal(np.asarray(Ev, dtype=float), E):
+        ctx.violation("input_array_modified", f"storage {form}: array changed by the calls", wit)
     if max(sizes) > 1 and not tie:
-        ctx.nontrivial(("blocks", n, tuple(sizes), mode))
+        ctx.nontrivial(("blocks", n if not big else n // 50, tuple(sizes) if not big else max(sizes), mode))
     return wit
+
+
+# ----------------------------------------------------------------------------------------------
+#  kind 1b : the band groups of the tetrahedron method (TetraWeights.weights_all_band_groups)
+# ----------------------------------------------------------------------------------------------
+
+def tetra_expected_keys(E, Emin, Emax, ef0, ef1, thresh, kram, der, sel_idx=None):
+    """the groups a tetra=True calculator must use at one k-point: every block (component of the centre energies) whose span over the
+    k-cell meets [ef0, ef1] (and that holds a selected band), and - Fermi sea, der=0 - all blocks entirely below ef0 as ONE group
+    starting at band 0 (der=-1, hole-like: all blocks entirely above ef1 as one group ending at the last band).
+    Returns (set of mandatory keys, set of optional keys: blocks that only touch an edge of the range)"""
+    blocks = blocks_oracle(E, thresh, kram)
+    must, may = set(), set()
+    for a, b in blocks:
+        if sel_idx is not None and not (set(range(a, b)) & set(int(i) for i in sel_idx)):
+            continue
+        strictly = Emax[a:b].max() > ef0 and Emin[a:b].min() < ef1
+        weakly = Emax[a:b].max() >= ef0 and Emin[a:b].min() <= ef1
+        if strictly:
+            must.add((a, b))
+        elif weakly:
+            may.add((a, b))
+    if der == 0:
+        below = [(a, b) for a, b in blocks if Emax[a:b].max() < ef0]
+        if below:
+            must.add((0, max(b for a, b in below)))
+    if der == -1:
+        above = [(a, b) for a, b in blocks if Emin[a:b].min() > ef1]
+        if above:
+            must.add((min(a for a, b in above), len(E)))
+    return must, may
+
+
+def judge_group_keys(ctx, mech, got, E, Emin, Emax, ef0, ef1, thresh, kram, der, sel_idx, wit):
+    """the groups of one k-point against tetra_expected_keys: True / False (violation recorded) / None (not judged: a block lies
+    exactly on an edge of the range and a sea group is asked for - it may be counted in the range or in the sea)"""
+    ctx.ev()
+    got = {(int(a), int(b)) for a, b in got}
+    must, may = tetra_expected_keys(E, Emin, Emax, float(ef0), float(ef1), thresh, kram, der, sel_idx)
+    if may and der in (0, -1):
+        return None
+    if not (must <= got <= (must | may)):
+        ctx.violation(mech + "!=whole_blocks", f"der={der}: groups {sorted(got)}, expected {sorted(must)}"
+                      + (f" (+ optionally {sorted(may)})" if may else ""), dict(wit, got=sorted(got), expected=sorted(must)))
+        return False
+    return True
+
+
+def judge_tetra_groups(ctx, mech, res_k, E, Emin, Emax, Ef, thresh, kram, der, sel_idx, wit):
+    """one k-point of weights_all_band_groups"""
+    ok = judge_group_keys(ctx, mech, set(res_k), E, Emin, Emax, Ef[0], Ef[-1], thresh, kram, der, sel_idx, wit)
+    if not ok:
+        return ok
+    for key in res_k:
+        w = np.asarray(res_k[key], dtype=float)
+        if w.shape != np.shape(Ef):
+            ctx.violation(mech + ":weight_shape", f"group {key}: weight of shape {w.shape} for {len(Ef)} Fermi levels", wit)
+            return False
+    return True
+
+
+def tetra_groups_one(ctx, rng, state):
+    T = state["T"]
+    E0, thresh, mode = gen_array(rng)
+    nb = len(E0)
+    if has_thresh_tie(E0, thresh, "near"):
+        ctx.count("skipped_threshold_tie")
+        return
+    paral = bool(rng.random() < 0.5)
+    nk = int(rng.integers(1, 4))
+    unit = max(thresh, 1e-3)
+    # centre energies: the same multiplet structure at every k (shifted); corner energies: the centre energies moved by a
+    # k-dependent amount and sorted again (bands do not cross inside a cell) - spread below, around or far above the threshold
+    spread = unit * [0.0, 0.3, 3.0, 30.0][int(rng.integers(4))]
+    ncorn = 8 if paral else 4
+    eCenter = np.array([E0 + (0.0 if ik == 0 else rng.uniform(-5, 5) * unit) for ik in range(nk)])
+    corners = np.sort(eCenter[:, None, :] + spread * rng.normal(size=(nk, ncorn, nb)), axis=-1)
+    eCorners = corners.reshape((nk, 2, 2, 2, nb)) if paral else corners
+    tw = (T.TetraWeightsParal if paral else T.TetraWeights)(eCenter=eCenter.copy(), eCorners=eCorners.copy())
+    Eall = np.concatenate([eCenter[:, None, :], corners], axis=1)
+    Emin, Emax = Eall.min(axis=1), Eall.max(axis=1)
+    kram = bool(nb % 2 == 0 and rng.random() < 0.35)
+    wit0 = dict(eCenter=eCenter, eCorners=eCorners, thresh=thresh, Kramers=kram, paral=paral, mode=mode)
+
+    def fermi():
+        a, b = gen_window(rng, eCenter[int(rng.integers(nk))], thresh)
+        a, b = min(a, b), max(a, b)
+        lo, hi = float(Eall.min()), float(Eall.max())
+        a = max(a, lo - 1.0 - unit) if np.isfinite(a) else lo - 1.0
+        b = min(b, hi + 1.0 + unit) if np.isfinite(b) else hi + 1.0
+        a, b = min(a, b), max(a, b)
+        nE = int(rng.integers(1, 5))
+        return np.ascontiguousarray(np.sort(np.concatenate([[a], rng.uniform(a, b, nE - 1)]) if nE > 1 else np.array([a])))
+    Ef_first = fermi()
+    requests = [(Ef_first, "first"), (fermi(), "second_array_on_the_same_object"), (Ef_first, "first_again")]
+    several = False
+    for Ef, tag in requests:
+        der = [0, 0, -1, 1, 2][int(rng.integers(5))]
+        sel, sel_idx, sel_form = None, None, None
+        if der >= 1 and rng.random() < 0.4:
+            sel, sel_idx, sel_form = selection_variant(rng, nb)
+        kw = dict(degen_thresh=scalar_variant(rng, thresh), degen_Kramers=kram)
+        if sel is not None:
+            kw["select_bands"] = sel
+        res = tw.weights_all_band_groups(Ef, der, **kw) if rng.random() < 0.3 else tw.weights_all_band_groups(Ef, der=der, **kw)
+        ctx.count("tetra_groups")
+        ctx.count("tetra_groups_paral" if paral else "tetra_groups_tetra")
+        if tag != "first":
+            ctx.count("tetra_groups_object_reused")
+        if sel is not None:
+            ctx.count("tetra_groups_select_bands")
+        if len(res) != nk:
+            ctx.violation("TetraWeights.groups:number_of_k", f"{len(res)} for {nk} k-points", wit0)
+            continue
+        for ik in range(nk):
+            wit = dict(wit0, ik=ik, Efermi=Ef, der=der, select_bands=sel, request=tag)
+            ok = judge_tetra_groups(ctx, "TetraWeights.groups", res[ik], eCenter[ik], Emin[ik], Emax[ik], Ef, thresh, kram, der,
+                                    sel_idx, wit)
+            if ok is None:
+                ctx.count("tetra_groups_edge_tie")
+                continue
+            if not ok:
+                break
+            must, _ = tetra_expected_keys(eCenter[ik], Emin[ik], Emax[ik], float(Ef[0]), float(Ef[-1]), thresh, kram, der, sel_idx)
+            blocks = set(blocks_oracle(eCenter[ik], thresh, kram))
+            extra = [k for k in must if k not in blocks]         # the sea / anti-sea group when it joins several blocks
+            for key in must - blocks | {k for k in must if der in (0, -1) and (k[0] == 0 or k[1] == nb) and
+                                        (Emax[ik, k[0]:k[1]].max() < Ef[0] or Emin[ik, k[0]:k[1]].min() > Ef[-1])}:
+                ctx.ev()
+                if not np.array_equal(np.asarray(res[ik][key], dtype=float), np.ones(len(Ef))):
+                    ctx.violation("TetraWeights.groups:sea_weight!=1", f"group {key}: {res[ik][key]}", wit)
+            if extra:
+                ctx.count("tetra_sea_group_of_several_blocks")
+            if any(b - a > 1 for a, b in must & blocks):
+                several = True
+    if several:
+        ctx.nontrivial(("tetra_groups", paral, nk, nb, mode, kram))
 
 
 def case_arrays(ctx, rng, state):
@@ -313,6 +576,10 @@ def case_arrays(ctx, rng, state):
         wit = arrays_one(ctx, rng, state)
         if j == 0:
             ctx.sample(wit)
+    for j in range(2):
+        arrays_one(ctx, rng, state, big=True)
+    for j in range(6):
+        tetra_groups_one(ctx, rng, state)
     # the documented defaults: empty window
     E = np.sort(rng.normal(size=5))
     got = U.select_window_degen(E)
@@ -350,16 +617,115 @@ class BordersMonitor:
         return res
 
 
-def gen_deg_system(rng):
+class GroupsMonitor:
+    """M-groups: every call of Data_K.get_bands_in_range_groups_ik in a real workload (tetra=False static calculators, dynamic
+    calculators, tabulators): the keys are whole blocks of E_K[ik] (+ the Fermi-sea group = all blocks entirely below the range),
+    the values the block means"""
+    NAMES = ("degen_thresh", "degen_Kramers", "sea", "Emin", "Emax", "select_bands")
+
+    def __init__(self):
+        self.ctx = None
+
+    def install(self, cls):
+        orig = cls.get_bands_in_range_groups_ik
+        mon = self
+
+        def wrapped(self_, ik, emin, emax, *args, **kwargs):
+            res = orig(self_, ik, emin, emax, *args, **kwargs)
+            if mon.ctx is not None:
+                kw = dict(degen_thresh=-1, degen_Kramers=False, sea=False, Emin=-np.inf, Emax=np.inf, select_bands=None)
+                kw.update(dict(zip(mon.NAMES, args)))
+                kw.update(kwargs)
+                mon.judge(self_, ik, emin, emax, kw, res)
+            return res
+        cls.get_bands_in_range_groups_ik = wrapped
+
+    def judge(self, data, ik, emin, emax, kw, res):
+        ctx = self.ctx
+        ctx.count("monitor_groups_calls")
+        E = np.asarray(data.E_K[ik], dtype=float)
+        thresh, kram, sel = kw["degen_thresh"], kw["degen_Kramers"], kw["select_bands"]
+        if (kram and len(E) % 2) or has_thresh_tie(E, thresh, "near"):
+            ctx.count("monitor_groups_not_judged")
+            return
+        wit = dict(E=E, emin=emin, emax=emax, insitu=True, **{k: v for k, v in kw.items() if k not in ("Emin", "Emax")})
+        sel_idx = None if sel is None else np.asarray(list(sel), dtype=int)
+        ok = judge_group_keys(ctx, "M-groups", set(res), E, E, E, emin, emax, thresh, kram, 0 if kw["sea"] else 1, sel_idx, wit)
+        if not ok:
+            if ok is None:
+                ctx.count("monitor_groups_not_judged")
+            return
+        scale = 1.0 + float(np.max(np.abs(E)))
+        for (a, b), v in res.items():
+            if np.isfinite(v):
+                ctx.close("M-groups:energy!=block_mean", float(v), float(np.mean(E[a:b])), rtol=1e-12, scale=scale,
+                          what=f"group {(a, b)}", witness=wit)
+            elif not (kw["sea"] and a == 0 and v == -np.inf):
+                ctx.violation("M-groups:sea_value", f"group {(a, b)}: {v}", wit)
+
+
+class TetraGroupsMonitor:
+    """M-tetra-groups: every call of TetraWeights.weights_all_band_groups (tetra=True calculators on Grid and GridTetra)"""
+    NAMES = ("der", "degen_thresh", "degen_Kramers", "Emin", "Emax", "select_bands")
+
+    def __init__(self):
+        self.ctx = None
+
+    def install(self, cls):
+        orig = cls.weights_all_band_groups
+        mon = self
+
+        def wrapped(self_, eFermi, *args, **kwargs):
+            res = orig(self_, eFermi, *args, **kwargs)
+            if mon.ctx is not None:
+                kw = dict(degen_thresh=-1, degen_Kramers=False, Emin=-np.inf, Emax=np.inf, select_bands=None)
+                kw.update(dict(zip(mon.NAMES, args)))
+                kw.update(kwargs)
+                mon.judge(self_, eFermi, kw, res)
+            return res
+        cls.weights_all_band_groups = wrapped
+
+    def judge(self, tw, Ef, kw, res):
+        ctx = self.ctx
+        ctx.count("monitor_tetra_groups_calls")
+        if tw.nk == 0:
+            return
+        if np.isfinite(kw["Emin"]) or np.isfinite(kw["Emax"]):
+            ctx.count("monitor_tetra_groups_not_judged")      # band-wise lower / upper cut of the sea asked for by the caller
+            return
+        thresh, kram, sel, der = kw["degen_thresh"], kw["degen_Kramers"], kw["select_bands"], kw["der"]
+        sel_idx = None if sel is None else np.asarray(list(sel), dtype=int)
+        Eall = np.concatenate((tw.eCenter[:, None, :], tw.eCorners.reshape(tw.nk, -1, tw.nb)), axis=1)
+        Emin, Emax = Eall.min(axis=1), Eall.max(axis=1)
+        for ik in range(tw.nk):
+            E = np.asarray(tw.eCenter[ik], dtype=float)
+            if (kram and len(E) % 2) or has_thresh_tie(E, thresh, "near"):
+                ctx.count("monitor_tetra_groups_not_judged")
+                continue
+            wit = dict(E=E, Ebandmin=Emin[ik], Ebandmax=Emax[ik], Efermi=Ef, der=der, thresh=thresh, Kramers=kram, select_bands=sel,
+                       ik=ik, insitu=True)
+            ok = judge_tetra_groups(ctx, "M-tetra-groups", res[ik], E, Emin[ik], Emax[ik], Ef, thresh, kram, der, sel_idx, wit)
+            if ok is False:
+                return
+            ctx.count("monitor_tetra_groups_judged")
+
+
+def gen_deg_system(rng, workdir=None):
     """G-deg: H(R) (x) 1_m plus an on-site splitting of the copies (bands E_n(k) + delta_s exactly),
     or a generic model with a threshold so large that bands group accidentally"""
-    mode = ["copies_exact", "copies_chain", "copies_split", "generic_large_thresh", "kramers"][int(rng.integers(5))]
+    mode = ["copies_exact", "copies_chain", "copies_split", "generic_large_thresh", "kramers", "kramers4",
+            "default_thresh"][int(rng.integers(7))]
     nb0 = int(rng.integers(1, 4))
+    if rng.random() < 0.08:
+        nb0 = int(rng.integers(4, 7))                       # up to 24 bands
+    two_d = bool(rng.random() < 0.12)
+    periodic = (True, True, False) if two_d else (True, True, True)
     base = gen_systems.herm_system(rng, num_wann=nb0, radius=rng.uniform(1.0, 1.8),
-                                   centers=["random", "zero"][int(rng.integers(2))])
+                                   centers=["random", "zero"][int(rng.integers(2))], periodic=periodic)
     lo, hi, bw = gen_systems.bandwidth(base)
     thresh = float(10 ** rng.uniform(-6, -3))
     kram = False
+    omit = False
     if mode == "generic_large_thresh":
         m = int(rng.integers(1, 3))
         delta = np.arange(m) * rng.uniform(0.01, 0.1) * (hi - lo)
@@ -370,8 +736,20 @@ def gen_deg_system(rng):
         kram = True
         if rng.random() < 0.5:
             thresh = -1.0
-    else:
+    elif mode == "kramers4":
+        # two Kramers pairs that coincide (or nearly): one block of four, not two blocks of two
+        m = 4
+        d = [0.0, 0.3 * thresh, 0.9 * thresh, 5 * thresh][int(rng.integers(4))]
+        delta = np.array([0.0, 0.0, d, d])
+        kram = True
+    elif mode == "default_thresh":
+        # the calculators are built WITHOUT degen_thresh: the documented default 1e-4 eV decides
+        thresh = 1e-4
+        omit = True
         m = int(rng.integers(2, 4))
+        delta = np.arange(m) * thresh * [0.0, 0.6, 3.0][int(rng.integers(3))]
+    else:
+        m = int(rng.integers(2, 5 if nb0 <= 3 else 4))
         step = {"copies_exact": 0.0, "copies_chain": 0.6 * thresh, "copies_split": 3.0 * thresh}[mode]
         delta = np.arange(m) * step
     Ham = base.get_R_mat("Ham")
@@ -380,14 +758,19 @@ def gen_deg_system(rng):
     i0 = iR.tolist().index([0, 0, 0])
     H2[i0] += np.kron(np.eye(nb0), np.diag(delta))
     cen = np.repeat(base.wannier_centers_red, m, axis=0)
-    system = gen_systems.make_system(base.real_lattice, iR, {"Ham": H2}, cen)
-    return system, dict(mode=mode, nb0=nb0, copies=m, delta=delta, thresh=thresh, Kramers=kram, band_range=(lo, hi))
+    system = gen_systems.make_system(base.real_lattice, iR, {"Ham": H2}, cen, periodic=periodic)
+    # a system that went through other public calls first (explicit right shifts, Wigner-Seitz folding, rebuilt from disk)
+    system, hist = gen_systems.history_variant(rng, system, workdir=workdir)
+    return system, dict(mode=mode, nb0=nb0, copies=m, delta=delta, thresh=thresh, Kramers=kram, band_range=(lo, hi),
+                        omit_thresh=omit, periodic=periodic, history=hist)
 
 
-def expected_groups(E, emin, emax, thresh, kram, sea):
+def expected_groups(E, emin, emax, thresh, kram, sea, sel_idx=None):
     blocks = blocks_oracle(E, thresh, kram)
     exp = {}
     for a, b in blocks:
+        if sel_idx is not None and not (set(range(a, b)) & set(int(i) for i in sel_idx)):
+            continue
         if E[a:b].max() >= emin and E[a:b].min() <= emax:
             exp[(a, b)] = float(np.mean(E[a:b]))
     if sea:
@@ -398,37 +781,104 @@ def expected_groups(E, emin, emax, thresh, kram, sea):
     return exp
 
 
+def ibands_variant(rng, nb):
+    """ibands of a tabulator: None, sorted array, list, tuple, unordered, a single band"""
+    r = int(rng.integers(6))
+    if r == 0:
+        return None, list(range(nb)), "none"
+    if r == 1:
+        ib = [int(rng.integers(nb))]
+        return (ib if rng.random() < 0.5 else np.array(ib)), ib, "single"
+    ib = [int(i) for i in rng.choice(nb, size=int(rng.integers(1, nb + 1)), replace=False)]
+    if r == 2:
+        return list(ib), ib, "unordered_list"
+    ib = sorted(ib)
+    if r == 3:
+        return tuple(ib), ib, "tuple"
+    if r == 4:
+        return list(ib), ib, "list"
+    return np.array(ib), ib, "array"
+
+
+def thresh_kw(info):
+    """constructor arguments that state the threshold - none when the documented default is under test"""
+    kw = {} if info["omit_thresh"] else dict(degen_thresh=info["thresh"])
+    if info["Kramers"] or not info["omit_thresh"]:
+        kw["degen_Kramers"] = info["Kramers"]
+    return kw
+
+
+def judge_tabulated(ctx, name, out, nat, Eind, good_k, ib_list, thresh, kram, wit, factor=1.0, through=None):
+    """tabulated values (nk, len(ib_list), ...) are equal inside every block; Energy is the block mean of the independent bands"""
+    nk = len(Eind)
+    out = np.asarray(out).reshape(nk, len(ib_list), -1)
+    tag = "" if through is None else through + ": "
+    for ik in good_k:
+        for a, b in blocks_oracle(Eind[ik], thresh, kram):
+            members = [j for j, ib in enumerate(ib_list) if a <= ib < b]
+            if not members:
+                continue
+            w2 = dict(wit, ik=ik, E=Eind[ik], block=(a, b), ibands=ib_list, tabulator=name, through=through)
+            if name == "Energy":
+                ctx.close("Tabulator.Energy!=block_mean", out[ik, members, 0],
+                          np.full(len(members), factor * Eind[ik, a:b].mean()), rtol=1e-9, scale=nat * abs(factor),
+                          what=f"{tag}Energy of block {(a, b)}", witness=w2)
+            if len(members) > 1:
+                ctx.close(f"Tabulator.{name}:differs_inside_block", out[ik, members],
+                          np.broadcast_to(out[ik, members[0]], out[ik, members].shape), rtol=1e-9, scale=nat,
+                          what=f"{tag}{name} inside block {(a, b)}", witness=w2)
+                ctx.count("tabulator_blocks_with_several_bands")
+
+
+def good_kpoints(E, Eind, thresh):
+    """k-points where neither the library's nor the independent energies have a gap within rounding of the threshold"""
+    guard = 1e-9 * (1.0 + float(np.max(np.abs(Eind))))
+    return [ik for ik in range(len(Eind))
+            if not np.any(np.abs(np.diff(Eind[ik]) - thresh) <= guard) and
+            (E is None or not np.any(np.abs(np.diff(E[ik]) - thresh) <= guard))]
+
+
 def case_datak(ctx, rng, state):
     import wannierberri as wb
     from wannierberri import calculators as calc
     from wannierberri.grid import Grid
     from wannierberri.grid.Kpoint import KpointBZparallel
     from wannierberri.data_K.data_K_R import Data_K_R
-    mon = state["borders_monitor"]
-    system, info = gen_deg_system(rng)
+    from vlib import monitors
+    mons = [state["borders_monitor"], state["groups_monitor"], state["tetra_groups_monitor"]]
+    workroot = env.WORK if os.path.isdir(env.WORK) else "/tmp"
+    system, info = gen_deg_system(rng, workdir=workroot)
+    ctx.count("history_" + info["history"])
+    if rng.random() < 0.3:
+        monitors.warm_caches(system)            # a system that has been used before
+        ctx.count("system_caches_warm")
     nb = system.num_wann
     thresh, kram = info["thresh"], info["Kramers"]
     lo, hi = info["band_range"]
     NK = tuple(int(x) for x in rng.integers(1, 4, size=3))
+    if not info["periodic"][2]:
+        NK = NK[:2] + (1,)
+        ctx.count("system_2D")
+    tkw = thresh_kw(info)
+
+    def make_data(dK):
+        grid = Grid(system, NKdiv=1, NKFFT=NK, use_symmetry=False)
+        Kp = KpointBZparallel(K=dK * np.array(NK), dK=np.ones(3), NKFFT=np.array(NK), factor=1.0,
+                              pointgroup=grid.pointgroup, refinement_level=0)
+        return Data_K_R(system, dK=Kp.Kp_fullBZ, grid=grid, Kpoint=Kp, fftlib=["fftw", "numpy"][int(rng.integers(2))])
     dK = rng.uniform(0, 1, 3) / np.array(NK)
     wit = dict(info, NK=NK, dK=dK, nb=nb)
-    grid = Grid(system, NKdiv=1, NKFFT=NK, use_symmetry=False)
-    Kp = KpointBZparallel(K=dK * np.array(NK), dK=np.ones(3), NKFFT=np.array(NK), factor=1.0,
-                          pointgroup=grid.pointgroup, refinement_level=0)
-    data = Data_K_R(system, dK=Kp.Kp_fullBZ, grid=grid, Kpoint=Kp, fftlib=["fftw", "numpy"][int(rng.integers(2))])
+    data = make_data(dK)
     E = np.array(data.E_K)
     nk = E.shape[0]
     Eind = gen_systems.bands(system, data.kpoints_all)
     scale = max(hi - lo, 1e-3) + float(np.max(info["delta"]))
     ctx.close("Data_K.E_K!=independent_bands", E, Eind, rtol=1e-9, scale=scale, what="E_K", witness=wit)
-    guard = 1e-9 * (1.0 + float(np.max(np.abs(E))))        # E_K and the independent bands differ by rounding:
-    good_k = [ik for ik in range(nk)                         # stay away from the threshold on both
-              if not np.any(np.abs(np.diff(E[ik]) - thresh) <= guard) and not np.any(np.abs(np.diff(Eind[ik]) - thresh) <= guard)]
+    good_k = good_kpoints(E, Eind, thresh)          # E_K and the independent bands differ by rounding: stay away from the threshold on both
     if len(good_k) < nk:
         ctx.count("skipped_threshold_tie_k", nk - len(good_k))
 
-    mon.ctx = ctx
-    try:
+    def groups_requests():
         # ---- get_bands_in_range_groups (what static / dynamic calculators use) ---------------------
         for _ in range(3):
             emin, emax = np.sort(rng.uniform(lo - 0.1 * scale, hi + 0.1 * scale, 2))
@@ -437,11 +887,29 @@ def case_datak(ctx, rng, state):
             if rng.random() < 0.2:
                 emax = np.inf
             sea = bool(rng.random() < 0.6)
-            got_all = data.get_bands_in_range_groups(emin, emax, degen_thresh=thresh, degen_Kramers=kram, sea=sea)
+            sel, sel_idx, sel_form = None, None, None
+            th_eff = thresh
+            if rng.random() < 0.1:
+                # the documented defaults of Data_K: degen_thresh=-1 (every band alone), no Kramers pairs, no sea group
+                got_all = data.get_bands_in_range_groups(emin, emax)
+                th_eff, kr_eff, sea = -1, False, False
+                ctx.count("groups_default_arguments")
+            else:
+                kr_eff = kram
+                kw = dict(degen_thresh=scalar_variant(rng, thresh), degen_Kramers=kram, sea=sea)
+                if not sea and rng.random() < 0.5:
+                    sel, sel_idx, sel_form = selection_variant(rng, nb)
+                    kw["select_bands"] = sel
+                    ctx.count("groups_select_bands")
+                if rng.random() < 0.3:
+                    got_all = [data.get_bands_in_range_groups_ik(ik, emin, emax, **kw) for ik in range(nk)]
+                else:
+                    got_all = data.get_bands_in_range_groups(emin, emax, **kw)
             for ik in good_k:
                 got = {(int(a), int(b)): float(v) for (a, b), v in got_all[ik].items()}
-                exp = expected_groups(E[ik], emin, emax, thresh, kram, sea)
-                w2 = dict(wit, ik=ik, E=E[ik], emin=emin, emax=emax, sea=sea, got=sorted(got), expected=sorted(exp))
+                exp = expected_groups(E[ik], emin, emax, th_eff, kr_eff, sea, sel_idx)
+                w2 = dict(wit, ik=ik, E=E[ik], emin=emin, emax=emax, sea=sea, got=sorted(got), expected=sorted(exp), select_bands=sel,
+                          degen_thresh=th_eff)
                 ctx.ev()
                 ctx.count("get_bands_in_range_groups")
                 if set(got) != set(exp):
@@ -456,88 +924,159 @@ def case_datak(ctx, rng, state):
                 if sea and any(not np.isfinite(v) for v in exp.values()) and len(exp) > 1:
                     ctx.count("sea_group_next_to_range_group")
 
+    ibands, ib_list, ib_form = ibands_variant(rng, nb)
+    ctx.count("ibands_" + ib_form)
+    efac = [1.0, 1.0, -2.5][int(rng.integers(3))]
+    ekw = dict(constant_factor=efac) if efac != 1.0 else {}
+    tabs = {"Energy": calc.tabulate.Energy(ibands=ibands, **tkw, **ekw),
+            "Velocity": calc.tabulate.Velocity(ibands=ibands, **tkw),
+            "BerryCurvature": calc.tabulate.BerryCurvature(ibands=ibands, kwargs_formula={"external_terms": False}, **tkw),
+            "InvMass": calc.tabulate.InvMass(ibands=ibands, **tkw)}
+    twin = {"Velocity": calc.tabulate.Velocity(degen_thresh=-1, ibands=ibands),
+            "BerryCurvature": calc.tabulate.BerryCurvature(degen_thresh=-1, ibands=ibands,
+                                                           kwargs_formula={"external_terms": False}),
+            "InvMass": calc.tabulate.InvMass(degen_thresh=-1, ibands=ibands)}
+
+    def tabulate_on(data_, Eind_, good_, tag):
         # ---- Tabulator: equal inside blocks, Energy = block mean -------------------------------------
-        nsel = int(rng.integers(1, nb + 1))
-        ibands = np.sort(rng.choice(nb, size=nsel, replace=False)) if rng.random() < 0.6 else None
-        ib_list = list(range(nb)) if ibands is None else [int(i) for i in ibands]
-        tabs = {"Energy": calc.tabulate.Energy(degen_thresh=thresh, degen_Kramers=kram, ibands=ibands),
-                "Velocity": calc.tabulate.Velocity(degen_thresh=thresh, degen_Kramers=kram, ibands=ibands),
-                "BerryCurvature": calc.tabulate.BerryCurvature(degen_thresh=thresh, degen_Kramers=kram, ibands=ibands,
-                                                               kwargs_formula={"external_terms": False})}
-        twin = {"Velocity": calc.tabulate.Velocity(degen_thresh=-1, ibands=ibands),
-                "BerryCurvature": calc.tabulate.BerryCurvature(degen_thresh=-1, ibands=ibands,
-                                                               kwargs_formula={"external_terms": False})}
         for name, tab in tabs.items():
-            out = np.asarray(tab(data).data)
-            out = out.reshape(nk, len(ib_list), -1)
+            out = np.asarray(tab(data_).data)
             # natural scale: the same quantity band by band (not the grouped value being judged)
-            nat = scale if name == "Energy" else max(float(np.max(np.abs(np.asarray(twin[name](data).data)))), 1e-6)
-            for ik in good_k:
-                blocks = blocks_oracle(Eind[ik], thresh, kram)
-                for a, b in blocks:
-                    members = [j for j, ib in enumerate(ib_list) if a <= ib < b]
-                    if not members:
-                        continue
-                    w2 = dict(wit, ik=ik, E=E[ik], block=(a, b), ibands=ib_list, tabulator=name)
-                    if name == "Energy":
-                        ctx.close("Tabulator.Energy!=block_mean", out[ik, members, 0],
-                                  np.full(len(members), Eind[ik, a:b].mean()), rtol=1e-9, scale=nat,
-                                  what=f"Energy of block {(a, b)}", witness=w2)
-                    if len(members) > 1:
-                        ctx.close(f"Tabulator.{name}:differs_inside_block", out[ik, members],
-                                  np.broadcast_to(out[ik, members[0]], out[ik, members].shape), rtol=1e-9, scale=nat,
-                                  what=f"{name} inside block {(a, b)}", witness=w2)
-                        ctx.count("tabulator_blocks_with_several_bands")
+            nat = scale if name == "Energy" else max(float(np.max(np.abs(np.asarray(twin[name](data_).data)))), 1e-6)
+            judge_tabulated(ctx, name, out, nat, Eind_, good_, ib_list, thresh, kram, wit,
+                            factor=efac if name == "Energy" else 1.0, through=tag)
             ctx.count("tabulator_" + name)
+
+    for m in mons:
+        m.ctx = ctx
+    try:
+        # the Data_K object serves the group requests and the tabulators in either order (its caches are warm for the second)
+        if rng.random() < 0.5:
+            groups_requests()
+            tabulate_on(data, Eind, good_k, None)
+        else:
+            tabulate_on(data, Eind, good_k, None)
+            groups_requests()
+            ctx.count("groups_after_tabulation")
+        # the same tabulator objects serve a second Data_K (other k-points, other number of k-points)
+        if rng.random() < 0.4:
+            NK_first = NK
+            if rng.random() < 0.5:
+                NK = tuple(int(x) for x in rng.integers(1, 4, size=3))
+                if not info["periodic"][2]:
+                    NK = NK[:2] + (1,)
+            data2 = make_data(rng.uniform(0, 1, 3) / np.array(NK))
+            NK = NK_first
+            Eind2 = gen_systems.bands(system, data2.kpoints_all)
+            tabulate_on(data2, Eind2, good_kpoints(np.array(data2.E_K), Eind2, thresh), "second Data_K with the same tabulators")
+            ctx.count("tabulator_reused_on_second_data")
         nmulti = sum(1 for ik in good_k for a, b in blocks_oracle(Eind[ik], thresh, kram) if b - a > 1)
 
+        # ---- evaluate_k: the pre-defined quantities are tabulators with the default threshold --------------
+        if info["omit_thresh"] and not kram:
+            kpt = rng.uniform(0, 1, 3)
+            Ek = gen_systems.bands(system, kpt[None, :])
+            if good_kpoints(None, Ek, 1e-4):
+                iband = None if rng.random() < 0.5 else sorted(int(i) for i in rng.choice(nb, size=int(rng.integers(1, nb + 1)),
+                                                                                         replace=False))
+                res = wb.evaluate_k(system, k=tuple(kpt), quantities=["energy", "band_gradients"], iband=iband)
+                ibl = list(range(nb)) if iband is None else iband
+                w3 = dict(wit, k=kpt, iband=iband)
+                natv = max(float(np.max(np.abs(np.asarray(twin["Velocity"](data).data)))), 1e-6)
+                judge_tabulated(ctx, "Energy", np.asarray(res["energy"])[None], scale, Ek, [0], ibl, 1e-4, False, w3, through="evaluate_k")
+                judge_tabulated(ctx, "Velocity", np.asarray(res["band_gradients"])[None], natv, Ek, [0], ibl, 1e-4, False, w3,
+                                through="evaluate_k")
+                ctx.count("evaluate_k_default_thresh")
+
         # ---- the same through wannierberri.run (TabulatorAll) with the monitors on ------------------
-        if rng.random() < (0.5 if ctx.thorough else 0.35):
-            tmp = tempfile.mkdtemp(prefix="c15_", dir=env.WORK if os.path.isdir(env.WORK) else "/tmp")
+        if rng.random() < (0.5 if ctx.thorough else 0.4):
+            tmp = tempfile.mkdtemp(prefix="c15_", dir=workroot)
             try:
-                nkdiv = tuple(int(x) for x in rng.integers(1, 3, 3))
-                g2 = Grid(system, NKdiv=nkdiv, NKFFT=NK)
-                Ef = np.linspace(lo - 0.05 * scale, hi + 0.05 * scale, 7)
-                calcs = {"tab": calc.TabulatorAll({"Energy": calc.tabulate.Energy(degen_thresh=thresh, degen_Kramers=kram),
-                                                   "E0": calc.tabulate.Energy(degen_thresh=-1),
-                                                   "V": calc.tabulate.Velocity(degen_thresh=thresh, degen_Kramers=kram),
-                                                   "V0": calc.tabulate.Velocity(degen_thresh=-1)},
-                                                  mode="grid", ibands=ibands),
-                         "cumdos": calc.static.CumDOS(Efermi=Ef, tetra=False, degen_thresh=thresh, degen_Kramers=kram)}
-                res = wb.run(system, grid=g2, calculators=calcs, parallel=False, fout_name=os.path.join(tmp, "res"),
-                             suffix="", restart=False, print_progress_step_time=1e9)
-                tab = res.results["tab"]
-                kpts = np.asarray(tab.kpoints)
-                Erun = gen_systems.bands(system, kpts)
-                E0 = np.asarray(tab.results["E0"].data)
-                Eg = np.asarray(tab.results["Energy"].data)
-                V = np.asarray(tab.results["V"].data).reshape(len(kpts), len(ib_list), -1)
-                natV = max(float(np.max(np.abs(np.asarray(tab.results["V0"].data)))), 1e-6)
-                ctx.close("run:Tabulator.Energy[thresh<0]!=independent_bands", E0, Erun[:, ib_list], rtol=1e-9, scale=scale,
-                          what="raw tabulated energies", witness=wit)
-                for ik in range(len(kpts)):
-                    if has_thresh_tie(Erun[ik], thresh):
-                        continue
-                    for a, b in blocks_oracle(Erun[ik], thresh, kram):
-                        members = [j for j, ib in enumerate(ib_list) if a <= ib < b]
-                        if not members:
-                            continue
-                        w2 = dict(wit, k=kpts[ik], E=Erun[ik], block=(a, b), ibands=ib_list, through="run")
-                        ctx.close("Tabulator.Energy!=block_mean", Eg[ik, members], np.full(len(members), Erun[ik, a:b].mean()),
-                                  rtol=1e-9, scale=scale, what=f"run: Energy of block {(a, b)}", witness=w2)
-                        if len(members) > 1:
-                            ctx.close("Tabulator.Velocity:differs_inside_block", V[ik, members],
-                                      np.broadcast_to(V[ik, members[0]], V[ik, members].shape), rtol=1e-9, scale=natV,
-                                      what=f"run: Velocity inside block {(a, b)}", witness=w2)
-                ctx.count("run_TabulatorAll")
+                run_case(ctx, rng, wb, calc, system, info, NK, ibands, ib_list, scale, wit, tmp)
             finally:
                 shutil.rmtree(tmp, ignore_errors=True)
     finally:
-        mon.ctx = None
+        for m in mons:
+            m.ctx = None
     if nmulti > 0:
-        ctx.nontrivial(("datak", info["mode"], info["nb0"], info["copies"], NK, kram, thresh < 0,
-                        None if ibands is None else tuple(ib_list)))
+        ctx.nontrivial(("datak", info["mode"], info["nb0"], info["copies"], NK, kram, thresh < 0, ib_form,
+                        info["history"] != "as_built"))
     ctx.sample(dict(wit, E_first_k=E[0]))
+
+
+def run_case(ctx, rng, wb, calc, system, info, NK, ibands, ib_list, scale, wit, tmp):
+    """wannierberri.run on a Grid, a GridTetra or a Path: tabulators judged on the output, every band grouping made on the way
+    (tabulators, tetra=False and tetra=True static calculators, a dynamic calculator) judged in situ by the monitors"""
+    thresh, kram = info["thresh"], info["Kramers"]
+    lo, hi = info["band_range"]
+    tkw = thresh_kw(info)
+    three_d = bool(info["periodic"][2])
+    kind = ["Grid", "Grid", "GridTetra", "Path"][int(rng.integers(4))]     # on a GridTetra only integrals (its k-points are no regular mesh)
+    if kind == "GridTetra" and not three_d:
+        kind = "Grid"
+    tab_mode = "path" if kind == "Path" else "grid"
+    with warnings.catch_warnings():
+        warnings.simplefilter("ignore")
+        if kind == "Grid":
+            nkdiv = tuple(int(x) for x in rng.integers(1, 3, 3))
+            if not three_d:
+                nkdiv = nkdiv[:2] + (1,)
+            grid = wb.Grid(system, NKdiv=nkdiv, NKFFT=NK)
+        elif kind == "GridTetra":
+            grid = wb.grid.GridTetra(system, length=float(rng.uniform(3.0, 7.0)), NKFFT=int(rng.integers(1, 3)))
+        else:
+            npts = int(rng.integers(1, 9))
+            K = rng.uniform(-0.5, 0.5, size=(npts, 3))
+            if npts > 2:
+                K[int(rng.integers(npts))] = np.array([0.0, 0.5, 0.0])[rng.permutation(3)]      # a point of high symmetry
+            if not three_d:
+                K[:, 2] = 0
+            grid = wb.Path(system, k_list=K)
+    wit = dict(wit, grid=kind)
+    Ef = np.linspace(lo - 0.05 * scale, hi + 0.05 * scale, 7)
+    calcs = {}
+    if kind != "GridTetra":
+        calcs["tab"] = calc.TabulatorAll({"Energy": calc.tabulate.Energy(**tkw),
+                                          "E0": calc.tabulate.Energy(degen_thresh=-1),
+                                          "V": calc.tabulate.Velocity(**tkw),
+                                          "V0": calc.tabulate.Velocity(degen_thresh=-1)},
+                                         mode=tab_mode, ibands=ibands)
+    if kind != "Path":
+        i0 = int(rng.integers(1, 5))
+        Epart = np.ascontiguousarray(Ef[i0:])              # starts inside the bands: the Fermi-sea group matters
+        calcs["cumdos"] = calc.static.CumDOS(Efermi=Ef, tetra=False, **tkw)
+        calcs["cumdos_part"] = calc.static.CumDOS(Efermi=Epart, tetra=False, **tkw)
+        calcs["cumdos_tetra"] = calc.static.CumDOS(Efermi=Epart, tetra=True, **tkw)
+        if rng.random() < 0.5:
+            calcs["holes_tetra"] = calc.static.CumDOS(Efermi=np.ascontiguousarray(Ef[:i0 + 1]), tetra=True, hole_like=True, **tkw)
+        if rng.random() < 0.5:
+            sel = selection_variant(rng, system.num_wann)[0]
+            calcs["dos_tetra_sel"] = calc.static.DOS(Efermi=Ef, tetra=True, select_bands=sel, **tkw)
+            calcs["dos_sel"] = calc.static.DOS(Efermi=Ef, tetra=False, select_bands=sel, **tkw)
+        if rng.random() < 0.5:
+            calcs["jdos"] = calc.dynamic.JDOS(Efermi=Ef[2:5], omega=np.linspace(0.0, hi - lo, 4), smr_fixed_width=0.1 * scale, **tkw)
+    before = {k: ctx.counters.get(k, 0) for k in ("monitor_groups_calls", "monitor_tetra_groups_calls")}
+    res = wb.run(system, grid=grid, calculators=calcs, parallel=False, fout_name=os.path.join(tmp, "res"),
+                 suffix="", restart=False, print_progress_step_time=1e9)
+    ctx.ev()
+    if ctx.counters.get("monitor_groups_calls", 0) == before["monitor_groups_calls"]:
+        ctx.violation("M-groups:wrapper_not_reached", "run() made no group request", wit)
+    if kind != "Path" and ctx.counters.get("monitor_tetra_groups_calls", 0) == before["monitor_tetra_groups_calls"]:
+        ctx.violation("M-tetra-groups:wrapper_not_reached", "run() with tetra=True calculators made no group request", wit)
+    ctx.count("run_on_" + kind)
+    if kind == "GridTetra":
+        return
+    tab = res.results["tab"]
+    kpts = np.asarray(tab.kpoints)
+    Erun = gen_systems.bands(system, kpts)
+    E0 = np.asarray(tab.results["E0"].data)
+    natV = max(float(np.max(np.abs(np.asarray(tab.results["V0"].data)))), 1e-6)
+    ctx.close("run:Tabulator.Energy[thresh<0]!=independent_bands", E0, Erun[:, ib_list], rtol=1e-9, scale=scale,
+              what="raw tabulated energies", witness=wit)
+    good = [ik for ik in range(len(kpts)) if not has_thresh_tie(Erun[ik], thresh)]
+    judge_tabulated(ctx, "Energy", tab.results["Energy"].data, scale, Erun, good, ib_list, thresh, kram, wit, through="run")
+    judge_tabulated(ctx, "Velocity", tab.results["V"].data, natV, Erun, good, ib_list, thresh, kram, wit, through="run")
+    ctx.count("run_TabulatorAll")
 
 
 # ----------------------------------------------------------------------------------------------
@@ -589,12 +1128,121 @@ class WindowMonitor:
         return res
 
 
+class KpointMonitor:
+    """M-disentangle: what the disentanglement really works with - the `frozen` and `free` masks that wannierise hands to
+    Wannierizer.add_kpoint for every k-point (after combining the two window selections and the explicit frozen states)"""
+
+    def __init__(self):
+        self.ctx = None
+        self.seen = []
+
+    def install(self, cls):
+        orig = cls.add_kpoint
+        mon = self
+
+        def wrapped(self_, **kwargs):
+            if mon.ctx is not None:
+                mon.ctx.count("monitor_add_kpoint_calls")
+                mon.seen.append((int(kwargs["ikirr"]), np.array(kwargs["frozen"], dtype=bool), np.array(kwargs["free"], dtype=bool)))
+            return orig(self_, **kwargs)
+        cls.add_kpoint = wrapped
+
+
+def window_candidates(E, thresh, wmin, wmax, include_degen):
+    """the oracle's selection; if a band lies exactly on an edge, the selections for either reading of that edge"""
+    if np.any(E == wmin) or np.any(E == wmax):
+        return [window_expected(E, thresh, wmin, wmax, include_degen, cl, ch) for cl in (True, False) for ch in (True, False)]
+    return [window_expected(E, thresh, wmin, wmax, include_degen)]
+
+
+def judge_disentangle_masks(ctx, seen, Eall, win, explicit, wit):
+    """frozen = all multiplets entirely inside the frozen window (+ the explicitly frozen states), free = all multiplets that
+    intersect the outer window, minus the frozen ones: no multiplet is split between frozen / free / left out by a window edge"""
+    NK = len(Eall)
+    ctx.ev()
+    if sorted(ik for ik, _, _ in seen) != list(range(NK)):
+        ctx.violation("M-disentangle:wrapper_not_reached", f"k-points handed to the Wannierizer: {[ik for ik, _, _ in seen]}", wit)
+        return
+    for ik, frozen, free in seen:
+        E = Eall[ik]
+        expl = np.zeros(len(E), dtype=bool)
+        expl[explicit.get(ik, [])] = True
+        w2 = dict(wit, ik=ik, E=E, frozen=frozen, free=free, insitu=True)
+        ctx.ev()
+        ctx.count("disentangle_masks_judged")
+        f_ok = any(np.array_equal(frozen, f | expl) for f in window_candidates(E, 1e-2, win["froz_min"], win["froz_max"], False))
+        if not f_ok:
+            exp = window_expected(E, 1e-2, win["froz_min"], win["froz_max"], False) | expl
+            ctx.violation("M-disentangle:frozen!=whole_multiplets_inside_frozen_window",
+                          f"frozen {frozen.astype(int)} expected {exp.astype(int)}", w2)
+            continue
+        s_ok = any(np.array_equal(free, sel & ~frozen) for sel in window_candidates(E, 1e-2, win["outer_min"], win["outer_max"], True))
+        if not s_ok:
+            exp = window_expected(E, 1e-2, win["outer_min"], win["outer_max"], True) & ~frozen
+            ctx.violation("M-disentangle:free!=whole_multiplets_meeting_outer_window_minus_frozen",
+                          f"free {free.astype(int)} expected {exp.astype(int)}", w2)
+            continue
+        comps = oracles.components(E, 1e-2, strict=True)
+        state3 = frozen.astype(int) * 2 + free.astype(int)
+        inside_f = (E >= win["froz_min"]) & (E <= win["froz_max"])
+        inside_o = (E >= win["outer_min"]) & (E <= win["outer_max"])
+        if any(c[1] - c[0] > 1 and (0 < inside_f[c[0]:c[1]].sum() < c[1] - c[0] or 0 < inside_o[c[0]:c[1]].sum() < c[1] - c[0])
+               for c in comps):
+            ctx.count("disentangle_window_cuts_multiplet")
+        if not np.any(expl):
+            split = [c for c in comps if len(set(state3[c[0]:c[1]].tolist())) > 1]
+            if split:
+                ctx.violation("M-disentangle:multiplet_split", f"multiplets {split}: frozen {frozen.astype(int)} free {free.astype(int)}", w2)
+
+
+def gen_windows(rng, Eall, m, exact_edge):
+    """frozen window: the upper edge cuts the lowest multiplet of one k-point; outer window: the upper edge cuts the
+    highest multiplet of some k-point; in half of the cases the lower edges of both cut a multiplet too.
+    exact_edge: an edge put exactly on a band energy"""
+    NK, NB = Eall.shape
+
+    def between(ik, j):
+        j = int(np.clip(j, 0, NB - 2))
+        if exact_edge and rng.random() < 0.5:
+            return float(Eall[ik, j + int(rng.integers(2))])
+        return float(0.5 * (Eall[ik, j] + Eall[ik, j + 1]))
+    ik0 = int(rng.integers(NK))
+    froz_max = between(ik0, int(rng.integers(0, max(m - 1, 1))))
+    if rng.random() < 0.5:
+        froz_max = float(np.quantile(Eall[:, :NB // 2 + 1], rng.uniform(0.2, 0.9)))     # generic position
+    ik1 = int(rng.integers(NK))
+    outer_max = between(ik1, NB - m + int(rng.integers(0, max(m - 1, 1)))) if rng.random() < 0.7 else np.inf
+    if rng.random() < 0.5:
+        outer_min = between(int(rng.integers(NK)), int(rng.integers(0, max(m - 1, 1))))
+        froz_min = outer_min
+    else:
+        outer_min = -np.inf
+        froz_min = -np.inf if rng.random() < 0.5 else float(Eall.min() - 1.0)
+    return dict(froz_min=froz_min, froz_max=froz_max, outer_min=outer_min, outer_max=outer_max)
+
+
+def window_counts(Eall, win, explicit):
+    """(largest number of frozen bands, smallest number of selected bands, frozen inside selected everywhere) by the oracle;
+    with a band exactly on an edge the most demanding reading"""
+    nfroz, nsel, nested = 0, Eall.shape[1], True
+    for ik, E in enumerate(Eall):
+        expl = np.zeros(len(E), dtype=bool)
+        expl[explicit.get(ik, [])] = True
+        fs = [f | expl for f in window_candidates(E, 1e-2, win["froz_min"], win["froz_max"], False)]
+        ss = window_candidates(E, 1e-2, win["outer_min"], win["outer_max"], True)
+        nfroz = max(nfroz, max(int(f.sum()) for f in fs))
+        nsel = min(nsel, min(int(x.sum()) for x in ss))
+        nested = nested and all(np.all(x[f]) for f in fs for x in ss)
+    return nfroz, nsel, nested
+
+
 def case_wannierise(ctx, rng, state):
     from wannierberri.w90files import WannierData, EIG, MMN, AMN
     from wannierberri.w90files.bkvectors import BKVectors
     mon = state["window_monitor"]
+    kmon = state["kpoint_monitor"]
     nb0 = int(rng.integers(2, 4))
-    m = int(rng.integers(2, 4))
+    m = int(rng.integers(2, 5))
     base = gen_systems.herm_system(rng, num_wann=nb0, radius=rng.uniform(1.0, 1.6), centers="zero")
     lat = base.real_lattice
     recip = 2 * np.pi * np.linalg.inv(lat).T
@@ -611,7 +1259,7 @@ def case_wannierise(ctx, rng, state):
     iR = base.rvec.iRvec
     step = float(rng.uniform(0.1, 0.7)) * 1e-2                   # default thresh of the windows is 1e-2
     delta = np.arange(m) * step                                   # chain multiplets of m bands
-    NB = nb0 * m
+    NBfull = nb0 * m
 
     def HU(k):
         H = np.einsum("r,rab->ab", np.exp(2j * np.pi * (iR @ k)), Ham)
@@ -619,43 +1267,87 @@ def case_wannierise(ctx, rng, state):
         H = np.kron(H, np.eye(m)) + np.kron(np.eye(nb0), np.diag(delta))
         return np.linalg.eigh(H)
     EU = [HU(k) for k in kpts]
-    Eall = np.array([e for e, u in EU])
+    Efull = np.array([e for e, u in EU])
     NK = len(kpts)
-    # frozen window: the upper edge cuts the lowest multiplet of one k-point; outer window: the upper edge cuts the
-    # highest multiplet of some k-point; in half of the cases the lower edges of both cut a multiplet too
-    ik0 = int(rng.integers(NK))
-    j = int(rng.integers(0, m - 1))
-    froz_max = float(0.5 * (Eall[ik0, j] + Eall[ik0, j + 1]))
-    if rng.random() < 0.5:
-        froz_max = float(np.quantile(Eall[:, :NB // 2 + 1], rng.uniform(0.2, 0.9)))     # generic position
-    ik1 = int(rng.integers(NK))
-    j1 = NB - m + int(rng.integers(0, m - 1))
-    outer_max = float(0.5 * (Eall[ik1, j1] + Eall[ik1, j1 + 1])) if rng.random() < 0.7 else np.inf
-    if rng.random() < 0.5:
-        ik2 = int(rng.integers(NK))
-        j2 = int(rng.integers(0, m - 1))
-        outer_min = float(0.5 * (Eall[ik2, j2] + Eall[ik2, j2 + 1]))
-        froz_min = outer_min
-    else:
-        outer_min = -np.inf
-        froz_min = -np.inf if rng.random() < 0.5 else float(Eall.min() - 1.0)
-    if not (outer_min <= froz_min < froz_max <= outer_max):
-        raise harness.Skip("windows not nested")
-    # domain of wannierise: frozen <= num_wann <= selected at every k-point (sized with the oracle)
-    nfroz = max(int(window_expected(Eall[ik], 1e-2, froz_min, froz_max, False).sum()) for ik in range(NK))
-    nsel = min(int(window_expected(Eall[ik], 1e-2, outer_min, outer_max, True).sum()) for ik in range(NK))
+    # history: bands taken out of the data set through the public WannierData.select_bands before wannierising (the cut may go
+    # through a multiplet: the remaining bands are what the windows see)
+    keep = np.arange(NBfull)
+    band_sel = None
+    if rng.random() < 0.25:
+        b0 = int(rng.integers(0, m))
+        b1 = NBfull - int(rng.integers(0, m))
+        keep = np.arange(b0, b1)
+        band_sel = ["range", "list", "bool"][int(rng.integers(3))]
+        if band_sel == "bool" and not PENDING:
+            band_sel = "list"
+    Eall = Efull[:, keep]
     if any(has_thresh_tie(Eall[ik], 1e-2) for ik in range(NK)):
         raise harness.Skip("tie")
+    exact_edge = bool(rng.random() < 0.2)
+    win = gen_windows(rng, Eall, m, exact_edge)
+    if not (win["outer_min"] <= win["froz_min"] < win["froz_max"] <= win["outer_max"]):
+        raise harness.Skip("windows not nested")
+    nothing_frozen = bool(rng.random() < 0.1)
+    if nothing_frozen:
+        win["froz_min"], win["froz_max"] = np.inf, -np.inf           # the documented defaults: empty frozen window
+    # explicitly frozen states (list: at every k-point, dict: per k-point), taken from the bands the outer window selects everywhere
+    explicit, frozen_states = {}, None
+    sel_all = np.all([window_expected(Eall[ik], 1e-2, win["outer_min"], win["outer_max"], True, False, False) for ik in range(NK)], axis=0)
+    if rng.random() < 0.25 and np.any(sel_all):
+        cand = np.where(sel_all)[0]
+        if rng.random() < 0.5:
+            frozen_states = [int(cand[int(rng.integers(len(cand)))])]
+            explicit = {ik: list(frozen_states) for ik in range(NK)}
+        else:
+            iks = rng.choice(NK, size=int(rng.integers(1, min(NK, 3) + 1)), replace=False)
+            frozen_states = {int(ik): [int(cand[int(rng.integers(len(cand)))])] for ik in iks}
+            explicit = dict(frozen_states)
+    # domain of wannierise: frozen <= num_wann <= selected at every k-point, frozen inside selected (sized with the oracle)
+    nfroz, nsel, nested = window_counts(Eall, win, explicit)
+    if not nested:
+        raise harness.Skip("windows not nested")
     if max(nfroz, 1) > nsel:
         raise harness.Skip("frozen window would hold more bands than the outer window somewhere")
     NW = int(rng.integers(max(nfroz, 1), nsel + 1))
     eig = EIG([e for e, u in EU])
     mmn = MMN([np.array([EU[ik][1].conj().T @ EU[bk.neighbours[ik][ib]][1] for ib in range(bk.NNB)]) for ik in range(NK)])
-    proj = np.linalg.qr(rng.normal(size=(NB, NW)) + 1j * rng.normal(size=(NB, NW)))[0]
+    proj = np.linalg.qr(rng.normal(size=(NBfull, NW)) + 1j * rng.normal(size=(NBfull, NW)))[0]
     amn = AMN([EU[ik][1].conj().T @ proj for ik in range(NK)])
     tmp = tempfile.mkdtemp(prefix="c15w_", dir=env.WORK if os.path.isdir(env.WORK) else "/tmp")
-    wit = dict(nb0=nb0, copies=m, step=step, mp_grid=mp, NW=NW, froz_max=froz_max, froz_min=froz_min, outer_min=outer_min,
-               outer_max=outer_max)
+    wit = dict(nb0=nb0, copies=m, step=step, mp_grid=mp, NW=NW, bands_kept=(int(keep[0]), int(keep[-1]) + 1), select_bands_form=band_sel,
+               frozen_states=frozen_states, exact_edge=exact_edge, **win)
+
+    def run_wannierise(wd, win_, frozen_states_, explicit_, tag, **more):
+        kw = dict(win_)
+        if nothing_frozen and tag == "first" and rng.random() < 0.5:
+            kw.pop("froz_min")
+            kw.pop("froz_max")
+        if not np.isfinite(kw["outer_min"]) and rng.random() < 0.5:
+            kw.pop("outer_min")
+        if not np.isfinite(kw["outer_max"]) and rng.random() < 0.5:
+            kw.pop("outer_max")
+        if frozen_states_ is not None:
+            kw["frozen_states"] = frozen_states_
+        mon.ctx = ctx
+        kmon.ctx = ctx
+        kmon.seen = []
+        before = ctx.counters.get("monitor_window_calls", 0)
+        try:
+            with warnings.catch_warnings():
+                warnings.simplefilter("ignore")
+                wd.wannierise(num_iter=int(rng.integers(2, 6)), parallel=False, savechk=False, print_progress_every=1000,
+                              sitesym=False, localise=bool(rng.random() < 0.5), **kw, **more)
+        finally:
+            mon.ctx = None
+            kmon.ctx = None
+        ncalls = ctx.counters.get("monitor_window_calls", 0) - before
+        ctx.ev()
+        ctx.count("wannierise_runs")
+        w2 = dict(wit, call=tag, **win_)
+        if ncalls != 2 * NK:
+            ctx.violation("M-window:wrapper_not_reached", f"{ncalls} window selections observed for {NK} k-points", w2)
+        judge_disentangle_masks(ctx, kmon.seen, Eall, win_, explicit_, w2)
+
     try:
         wd = WannierData()
         wd.seedname = os.path.join(tmp, "syn")
@@ -663,22 +1355,43 @@ def case_wannierise(ctx, rng, state):
         wd.set_file("eig", eig)
         wd.set_file("mmn", mmn)
         wd.set_file("amn", amn)
-        mon.ctx = ctx
-        before = ctx.counters.get("monitor_window_calls", 0)
-        try:
+        if band_sel is not None:
             with warnings.catch_warnings():
                 warnings.simplefilter("ignore")
-                wd.wannierise(froz_min=froz_min, froz_max=froz_max, outer_min=outer_min, outer_max=outer_max,
-                              num_iter=int(rng.integers(2, 6)), parallel=False, savechk=False, print_progress_every=1000,
-                              sitesym=False, localise=bool(rng.random() < 0.5))
-        finally:
-            mon.ctx = None
-        ncalls = ctx.counters.get("monitor_window_calls", 0) - before
-        ctx.ev()
-        ctx.count("wannierise_runs")
-        if ncalls != 2 * NK:
-            ctx.violation("M-window:wrapper_not_reached", f"{ncalls} window selections observed for {NK} k-points", wit)
-        ctx.nontrivial(("wannierise", nb0, m, mp, NW, np.isfinite(outer_max), np.isfinite(froz_min), np.isfinite(outer_min)))
+                if band_sel == "range":
+                    wd.select_bands(band_start=int(keep[0]), band_end=int(keep[-1]) + 1)
+                elif band_sel == "list":
+                    wd.select_bands(selected_bands=[int(i) for i in keep])
+                else:
+                    mask = np.zeros(NBfull, dtype=bool)
+                    mask[keep] = True
+                    wd.select_bands(selected_bands=mask)
+            ctx.count("wannierise_after_select_bands")
+            ctx.ev()
+            if not all(np.array_equal(np.asarray(wd.eig.data[ik]), Eall[ik]) for ik in range(NK)):
+                ctx.violation("WannierData.select_bands:eig!=kept_bands", f"bands {keep[0]}..{keep[-1]} asked for", wit)
+                return
+        run_wannierise(wd, win, frozen_states, explicit, "first")
+        if frozen_states is not None:
+            ctx.count("wannierise_explicit_frozen_states")
+        if nothing_frozen:
+            ctx.count("wannierise_nothing_frozen")
+        if exact_edge:
+            ctx.count("wannierise_window_edge_on_band")
+        # the same data set wannierised again (restart from the gauge just found) with other windows: the selections of the
+        # second request must be those of the second windows
+        if rng.random() < 0.4:
+            for _ in range(4):
+                win2 = gen_windows(rng, Eall, m, exact_edge)
+                if not (win2["outer_min"] <= win2["froz_min"] < win2["froz_max"] <= win2["outer_max"]):
+                    continue
+                nfroz2, nsel2, nested2 = window_counts(Eall, win2, {})
+                if nested2 and max(nfroz2, 1) <= NW <= nsel2 and any(win2[k] != win[k] for k in win):
+                    run_wannierise(wd, win2, None, {}, "second_call_other_windows", init="restart")
+                    ctx.count("wannierise_second_call_other_windows")
+                    break
+        ctx.nontrivial(("wannierise", nb0, m, mp, NW, np.isfinite(win["outer_max"]), np.isfinite(win["froz_min"]),
+                        np.isfinite(win["outer_min"]), band_sel is not None, frozen_states is not None))
         ctx.sample(wit)
     finally:
         shutil.rmtree(tmp, ignore_errors=True)
@@ -699,6 +1412,16 @@ def setup(ctx):
     W.select_window_degen = wm               # the name bound by `from ..utility import select_window_degen`
     state["borders_monitor"] = bm
     state["window_monitor"] = wm
+    km = KpointMonitor()
+    km.install(W.Wannierizer)                # the class wannierise.py instantiates
+    state["kpoint_monitor"] = km
+    from wannierberri.data_K.data_K import Data_K
+    gm = GroupsMonitor()
+    gm.install(Data_K)                       # Data_K_R, Data_K_k, ... inherit the method
+    tm = TetraGroupsMonitor()
+    tm.install(T.TetraWeights)               # TetraWeightsParal inherits the method
+    state["groups_monitor"] = gm
+    state["tetra_groups_monitor"] = tm
     return state
 
 
